@@ -173,6 +173,8 @@ impl Widths {
     // one past the highest code that has a slot in the table (the table is dense from first_char up to here)
     pub open spec fn extent(&self) -> int { self.first_char + self.values@.len() }
 
+//@@ Widths::index_helper1
+//@@ Widths::index_helper2
 //@@ Widths::get
 //@@ Widths::new
 //@@ Widths::ensure_cid
